@@ -258,3 +258,23 @@ Proof.
   cbn [fst snd] in P. destruct P as (E & S1 & S2 & S3 & S4 & S5). subst e2. cbn [wr_store wr_result wr_fp wr_copies].
   rewrite S1, S3, S4, S5. auto.
 Qed.
+
+(* in ANY world (= after any history): which writer object performs the write - one that wrote other sets, one that raised,
+   a new one - does not matter for the store, the exit, the emitted tokens, the footprint, the copy count *)
+Theorem stepP_writer_object_irrelevant : forall c w wid1 wid2 k o si,
+  fix15 c = true ->
+  let r1 := stepP c w (OWrite wid1 k o si) in
+  let r2 := stepP c w (OWrite wid2 k o si) in
+  w_st (fst r1) = w_st (fst r2) /\ w_sets (fst r1) = w_sets (fst r2) /\
+  mo_err (snd r1) = mo_err (snd r2) /\ mo_tokens (snd r1) = mo_tokens (snd r2) /\
+  mo_fp (snd r1) = mo_fp (snd r2) /\ mo_copies (snd r1) = mo_copies (snd r2) /\
+  mo_changed_below (snd r1) = mo_changed_below (snd r2).
+Proof.
+  intros c w wid1 wid2 k o si Hc. cbv zeta. unfold stepP.
+  destruct (nth_error (w_sets w) si) as [s|]; [|repeat split].
+  set (i1 := match lookup wid1 (w_writers w) with Some x => x | None => winst0 end).
+  set (i2 := match lookup wid2 (w_writers w) with Some x => x | None => winst0 end).
+  destruct (writeP_instance_independent c k o i1 i2 (w_st w) s Hc) as (A & B & C & D).
+  cbn [fst snd w_st w_sets mo_err mo_tokens mo_fp mo_copies mo_changed_below].
+  rewrite A, B, C, D. repeat split.
+Qed.
